@@ -100,7 +100,10 @@ impl<S: Read + Write> Stream<S> {
 /// Link layer is a wrapper around TCP or SSL stream
 /// It can swicth from TCP to SSL
 pub struct Link<S> {
-    stream: Stream<S>
+    stream: Stream<S>,
+    /// Message that a TLS stream failed to send entirely
+    /// and number of its bytes that the TLS layer accepted
+    unfinished: Option<(Vec<u8>, usize)>
 }
 
 impl<S: Read + Write> Link<S> {
@@ -117,7 +120,8 @@ impl<S: Read + Write> Link<S> {
     /// ```
     pub fn new(stream: Stream<S>) -> Self {
         Link {
-            stream
+            stream,
+            unfinished: None
         }
     }
 
@@ -148,7 +152,40 @@ impl<S: Read + Write> Link<S> {
     pub fn write(&mut self, message: &dyn Message) -> RdpResult<()> {
         let mut buffer = Cursor::new(Vec::new());
         message.write(&mut buffer)?;
-        self.stream.write(buffer.into_inner().as_slice())?;
+        let buffer = buffer.into_inner();
+
+        if let Stream::Ssl(stream) = &mut self.stream {
+            // When a write fails, a part of the message may be pending in the TLS layer,
+            // or already sent : the TLS layer takes its next write as the retry of the
+            // failed one, whatever it carries. Only the same message can follow
+            let mut written = match self.unfinished.take() {
+                Some((message, written)) => {
+                    if message != buffer {
+                        self.unfinished = Some((message, written));
+                        return Err(Error::RdpError(RdpError::new(RdpErrorKind::InvalidAutomata, "LINK: the previous message is left unfinished by a write error")))
+                    }
+                    written
+                },
+                None => 0
+            };
+            while written < buffer.len() {
+                match stream.write(&buffer[written..]) {
+                    Ok(0) => {
+                        self.unfinished = Some((buffer, written));
+                        return Err(Error::Io(std::io::Error::new(std::io::ErrorKind::WriteZero, "failed to write whole buffer")))
+                    },
+                    Ok(size) => written += size,
+                    Err(ref e) if e.kind() == std::io::ErrorKind::Interrupted => (),
+                    Err(e) => {
+                        self.unfinished = Some((buffer, written));
+                        return Err(Error::Io(e))
+                    }
+                }
+            }
+            return Ok(())
+        }
+
+        self.stream.write(buffer.as_slice())?;
         Ok(())
     }
 
